@@ -84,6 +84,15 @@ def cases(draw, tier):
 
 
 def judge(out, prog, it, oc, exc, ctx):
+    # the `closed` property: false until somebody closes the stream, true from the moment close() is called
+    closes = [e for e in it.log if e[0] <= it.end_seq and e[3] in ('close_begin', 'close_ok')]
+    for n, e in enumerate(closes):
+        earlier = any(c[3] == 'close_begin' for c in closes[:n])
+        if e[3] == 'close_ok' and e[5] is not True:
+            out.fail('closed_property', 'false_after_close', '%s%s: closed is %r after close();%s' % (e[1], e[2], e[5], ctx))
+        elif e[3] == 'close_begin' and e[5] != earlier:
+            out.fail('closed_property', 'wrong_before_close', '%s%s: closed is %r before close() (closed earlier: %s);%s' % (
+                e[1], e[2], e[5], earlier, ctx))
     if oc != 'ok':
         out.fail('run_outcome', ('exc:' + type(exc).__name__) if oc == 'exc' else oc, '%r;%s' % (exc, ctx))
         return
